@@ -186,7 +186,7 @@ def _mask(ex, x, d):
 
 
 @scenario('C15', 'grad_api', ['torchtt.grad.watch', 'torchtt.grad.unwatch', 'torchtt.grad.grad', 'torchtt.grad.grad_list', 'torchtt.grad.watch_list'],
-          quick=[dict(case=c) for c in ('watch_all', 'watch_some', 'unwatch', 'grad_all', 'grad_indices', 'grad_indices_permuted', 'grad_list_flat', 'grad_list_nested', 'grad_list_nested_rev', 'watch_list', 'grad_twice', 'grad_list_twice', 'grad_of_constant', 'grad_list_of_constant')],
+          quick=[dict(case=c) for c in ('watch_all', 'watch_some', 'unwatch', 'grad_all', 'grad_indices', 'grad_indices_permuted', 'grad_list_flat', 'grad_list_nested', 'grad_list_nested_rev', 'watch_list', 'grad_twice', 'grad_list_twice', 'grad_of_constant', 'grad_list_of_constant', 'grad_then_indices', 'grad_independent', 'grad_indices_independent', 'grad_list_independent', 'grad_list_nested_independent')],
           replay='grad_api')
 def grad_api(ob, case):
     """watch/unwatch toggle requires_grad of the selected cores and nothing else; grad / grad_list return the .grad of the cores, in the
@@ -239,6 +239,61 @@ def grad_api(ob, case):
                         ob.prove_eq('entry%d_is_zero' % j, gt.at(H.fresh_axis_index(ex, gt)), Term.zero())
                     else:
                         ob.fail('entry%d_is_zero' % j, 'value', 'gradient of a constant is not a zero tensor')
+        return
+    if case in ('grad_independent', 'grad_indices_independent', 'grad_list_independent', 'grad_list_nested_independent'):
+        # two watched tensors, the value depends on the second only: the derivative w.r.t. the cores of the first is zero (dense: a zero
+        # array of the core's shape), the derivative w.r.t. the second is the .grad of its cores
+        y = ob.tt('y', 2, dtype='float64')
+        ycores = y.attrs['cores']
+        for c in ycores:
+            c.requires_grad = True
+        vy = ex.call(ex.getattr(y, 'sum'), [])
+        if case == 'grad_independent':
+            g = ex.call(G['grad'], [vy, x])
+            zero_of, dep_of = list(zip(g, cores)) if isinstance(g, list) and len(g) == d else None, []
+        elif case == 'grad_indices_independent':
+            g = ex.call(G['grad'], [vy, x, [2, 0]])
+            zero_of, dep_of = list(zip(g, [cores[2], cores[0]])) if isinstance(g, list) and len(g) == 2 else None, []
+        elif case == 'grad_list_independent':
+            g = ex.call(G['grad_list'], [vy, [x, y]])
+            ok = isinstance(g, list) and len(g) == d + 2
+            zero_of, dep_of = (list(zip(g[:d], cores)), list(zip(g[d:], ycores))) if ok else (None, [])
+        else:
+            g = ex.call(G['grad_list'], [vy, [y, x]], {'all_in_one': False})
+            ok = isinstance(g, list) and len(g) == 2 and all(isinstance(q, list) for q in g) and len(g[0]) == 2 and len(g[1]) == d
+            zero_of, dep_of = (list(zip(g[1], cores)), list(zip(g[0], ycores))) if ok else (None, [])
+        ob.prove('structure', zero_of is not None)
+        for j, (gt, ct) in enumerate(zero_of or []):
+            ok = isinstance(gt, STensor)
+            ob.prove('independent.entry%d_is_tensor' % j, ok)
+            if ok:
+                all_eq(ob, 'independent.entry%d_shape' % j, gt.shape, ct.shape)
+                if gt._val is not None and len(gt.shape) == len(ct.shape):
+                    ob.prove_eq('independent.entry%d_is_zero' % j, gt.at(H.fresh_axis_index(ex, gt)), Term.zero())
+                else:
+                    ob.fail('independent.entry%d_is_zero' % j, 'value', 'gradient w.r.t. a core the value does not depend on is not a zero tensor')
+        for j, (gt, ct) in enumerate(dep_of):
+            tag = gt.ghost.get('grad_of') if isinstance(gt, STensor) else None
+            ob.prove('dependent.entry%d_is_the_derivative' % j, bool(tag is not None and tag[0] is vy and tag[1] is ct))
+        return
+    if case == 'grad_then_indices':
+        # history with the core_indices option: a full gradient, then the gradient of another value w.r.t. ONE core.  The list
+        # returned first keeps its value for EVERY core (backward() of the second call accumulates into the .grad of all cores)
+        sq = ex.binop('Mult', x, x)
+        val2 = ex.call(ex.getattr(sq, 'sum'), [])
+        g1 = ex.call(G['grad'], [val_, x])
+        g1_tags = [t.ghost.get('grad_of') if isinstance(t, STensor) else None for t in g1]
+        g = ex.call(G['grad'], [val2, x, [0]])
+        ob.prove('is_list', isinstance(g, list) and len(g) == 1)
+        if isinstance(g, list) and len(g) == 1:
+            tag = g[0].ghost.get('grad_of') if isinstance(g[0], STensor) else None
+            ob.prove('second_call.entry0_is_the_derivative_of_the_second_value', bool(tag is not None and tag[0] is val2 and tag[1] is cores[0]))
+        for j, (t1, tag1) in enumerate(zip(g1, g1_tags)):
+            now = t1.ghost.get('grad_of') if isinstance(t1, STensor) else None
+            if now is not tag1:
+                ob.fail('first_result.entry%d_keeps_its_value' % j, 'frame', 'the tensor returned by the first call was updated in place by the second call')
+            else:
+                ob.ok('first_result.entry%d_keeps_its_value' % j, 'frame')
         return
     if case in ('grad_twice', 'grad_list_twice'):
         # history: two gradients of two different values w.r.t. the same watched tensor.  The second call returns the derivative of
